@@ -1212,7 +1212,10 @@ func main() {
 		return found
 	}, map[string]string{"err == nil": "errNil", "err == io.EOF": "errEOF", "len(bits)": "n"})
 	// filterBatchLocked: which unmatched members are dropped on a push-enabled server
+	dropAtoms := map[string]string{"s.allowP": "allowP", `""`: "([] : List UInt8)"}
 	emitCond(root, c, "Server", "filterBatchLocked", "dropsUnmatchedReply", "(allowP : Bool) (m : List UInt8) (e : Option Unit) (r : List UInt8) : Bool", func(fd *ast.FuncDecl) ast.Expr {
+		mvar, _ := loopOver(fd, "server.go:filterBatchLocked") // the loop variable, whatever it is called
+		dropAtoms[mvar+".M"], dropAtoms[mvar+".E"], dropAtoms[mvar+".R"] = "m", "e", "r"
 		var found ast.Expr
 		ast.Inspect(fd.Body, func(n ast.Node) bool {
 			if is, ok := n.(*ast.IfStmt); ok && found == nil && strings.Contains(src(is.Cond), "s.allowP") {
@@ -1224,7 +1227,7 @@ func main() {
 			return true
 		})
 		return found
-	}, map[string]string{"s.allowP": "allowP", "req.M": "m", "req.E": "e", "req.R": "r", `""`: "([] : List UInt8)"})
+	}, dropAtoms)
 	// whole-function translations of the member parser and the hand-written encoder (imp.go)
 	guard(&fs, []string{"ParseSt", "psFail", "parseField", "parsePost", "parseJSONResets"}, func() { emitParseJSON(&fs, root, c, funcs) })
 	guard(&fs, []string{"toJSON"}, func() { emitToJSON(&fs, root, c, funcs) })
